@@ -1,5 +1,6 @@
-from harness import gens
+from harness import gens, scen
 from harness.props import rowgen
+from harness.props import c05 as _c05
 
 
 class C03(rowgen.RowGenProp):
@@ -12,7 +13,9 @@ class C03(rowgen.RowGenProp):
                   "neighbour and places above the stage are untouched; lifted to every generator history. "
                   "correspondence: all (stage, place set) pairs to a stage bound, random generators with calls; "
                   "oracle: bell displacement <= 1, covers fixed, named places made when parity-consistent. "
-                  "non-trivial = >=2 rows without error")
+                  "non-trivial = >=2 rows without error. Bot level: sessions of the real Bot in which the method is "
+                  "started twice (Go, That's all / Rounds, Go) with Bobs and Singles; oracle: every row that is not "
+                  "rounds is a legal change of the row rung before it")
 
     def cases(self, rng, tier):
         ex = 10 if tier == "quick" else 16
@@ -26,7 +29,47 @@ class C03(rowgen.RowGenProp):
                 spec = gens.rand_special_spec(rng)
             yield rowgen.gen_case(rng, spec, rng.randint(2, 60), call_p=0.2, reset_p=0.02)
 
+        # through the Bot: every change rung - also the first one after a second Go - is a legal change of the
+        # row rung before it
+        yield from _c05.PROP.world_cases(rng, 25 if tier == "quick" else 250)
+
+    def impl(self, req):
+        return _c05.PROP.impl(req) if req["k"] == "world" else super().impl(req)
+
+    def to_model(self, req):
+        return _c05.PROP.to_model(req) if req["k"] == "world" else super().to_model(req)
+
+    def compare(self, req, ir, mr):
+        return _c05.PROP.compare(req, ir, mr) if req["k"] == "world" else super().compare(req, ir, mr)
+
+    def nontrivial(self, req, reply):
+        return _c05.PROP.nontrivial(req, reply) if req["k"] == "world" else super().nontrivial(req, reply)
+
+    def tag(self, req, reply):
+        return "bot:start-and-restart" if req["k"] == "world" else super().tag(req, reply)
+
+    def oracle_world(self, req, reply):
+        sc = req["scenario"]
+        if reply["crashed"] or reply["handler_crashes"]:
+            return f"crash: main={reply['crashed']} handlers={reply['handler_crashes']}"
+        N = sc["tower_size"]
+        stage = sc["bot"]["gen"]["stage"]
+        rows = scen.rows_from_strikes(reply, N)
+        rounds = list(range(1, N + 1))
+        for i in range(len(rows) - 1):
+            a, b = rows[i], rows[i + 1]
+            if b == rounds:
+                continue        # coming round / back into rounds after That's all or Rounds: not a change of the method
+            for p, bell in enumerate(a):
+                if bell not in b or abs(b.index(bell) - p) > 1:
+                    return f"row {i+1}: bell {bell} jumps ({a} -> {b})"
+            if b[stage:] != a[stage:]:
+                return f"row {i+1}: cover bells moved ({a} -> {b})"
+        return None
+
     def oracle(self, req, reply):
+        if req["k"] == "world":
+            return self.oracle_world(req, reply)
         return rowgen.oracle_legal(req, reply)
 
 
